@@ -80,21 +80,28 @@ Theorem C07_arith_shrinkable : forall en c l r te,
 Proof. exact Types.arith_shrinkable. Qed.
 Print Assumptions C07_arith_shrinkable.
 
-(** refutations: the faithful model of the code violates the property here *)
-Theorem C07_string_element_assignment_refuted : exists p tp,
-  elab_program false p = OK tp /\
-  List.existsb (fun tf => assigns_to_string_element (tf_body tf)) (tp_funcs tp) = true.
-Proof. exact Types.string_element_assignment_refuted. Qed.
-Print Assumptions C07_string_element_assignment_refuted.
+(** the former defects F7 and F6 are fixed in the repository: the positive statements hold *)
+Theorem C07_no_assign_to_string_element : forall u p tp,
+  elab_program u p = OK tp -> funcs_all not_string_target tp = true.
+Proof. exact Types.no_assign_to_string_element. Qed.
+Print Assumptions C07_no_assign_to_string_element.
 
-Theorem C07_empty_typed_array_refuted : exists p tp,
-  elab_program false p = OK tp /\
-  List.existsb (fun tf => match tf_body tf with
-                          | TSBlock (cons (TSExpr e) _) _ => has_empty_array e
-                          | _ => false
-                          end) (tp_funcs tp) = true.
-Proof. exact Types.empty_typed_array_refuted. Qed.
-Print Assumptions C07_empty_typed_array_refuted.
+Theorem C07_no_empty_typed_arrays : forall u p tp,
+  elab_program u p = OK tp ->
+  funcs_all stmt_exprs_no_empty tp = true /\
+  List.forallb (stmt_all (stmt_exprs_no_empty None)) (tp_vars tp) = true.
+Proof. exact Types.no_empty_typed_arrays. Qed.
+Print Assumptions C07_no_empty_typed_arrays.
+Example C07_former_defect_witnesses_rejected :
+  elab_program false f7_witness = Err EAssignConst /\
+  elab_program false f6_witness = Err EArrayEmptyElement.
+Proof. exact Types.former_defect_witnesses_rejected. Qed.
+
+(** refutation: the faithful model of the code still violates the full statement; the witness
+    is `byte x = true is int;` (an explicit-cast result implicitly narrowed) *)
+Example C07_narrowing_witness_facts :
+  (exists tp, elab_program false narrowing_witness = OK tp) /\ wt_program narrowing_witness = false.
+Proof. exact Types.narrowing_witness_facts. Qed.
 
 Theorem C07_full_statement_refuted : ~ C07_full_statement.
 Proof. exact Types.C07_full_statement_refuted. Qed.
